@@ -208,6 +208,7 @@ def aggregate(cid, mod, tier, seed, records, lost, wall, verbose=False, partial=
             "samples": samples,
             "verdicts": verdicts,
             "inconclusive_reasons": reasons,
+            "inconclusive_cases": [[r["index"], (r.get("why") or "")[:100]] for r in records if r["verdict"] == "inconclusive"][:40],
             "strata": dict(sorted(strata.items())),
             "violated_strata": dict(sorted(viol_strata.items())),
             "monitor_evaluations": dict(sorted(monitors.items())),
